@@ -43,18 +43,22 @@ package deneb
 //@   assigns anything, ghost(n_set_exec_header)
 //@   ensures n_set_exec_header == old(n_set_exec_header) + 1
 
+// the state's latest execution payload header (assumed view models, snapshot semantics; C03)
+//@ sort StateX_deneb = ExecutionTrackingBeaconState
+//@ sort HdrViewP_deneb = *ExecutionPayloadHeaderView
+//@ sort HdrP_deneb = *ExecutionPayloadHeader
+//@ ufun st_exhdr_err_deneb(StateX_deneb) bool
+//@ ufun st_exhdr_deneb(StateX_deneb) HdrViewP_deneb
+//@ ufun exhdr_raw_err_deneb(HdrViewP_deneb) bool
+//@ ufun exhdr_raw_deneb(HdrViewP_deneb) HdrP_deneb
 //@ func (s ExecutionTrackingBeaconState) LatestExecutionPayloadHeader() (r, err)
 //@   trusted
-//@   ensures err == nil ==> r != nil
+//@   ensures (err != nil) == st_exhdr_err_deneb(s)
+//@   ensures err == nil ==> r != nil && r == st_exhdr_deneb(s)
 //@ func (v *ExecutionPayloadHeaderView) Raw() (r, err)
 //@   trusted
-//@   ensures err == nil ==> r != nil
-
-// fork upgrade: assumed to hand back a state view of this fork on success (C14: which upgrade runs when is verified in beacon.UpgradeMaybe)
-//@ func UpgradeToDeneb(spec, epc, pre) (post, err)
-//@   trusted
-//@   assigns anything
-//@   ensures err == nil ==> post != nil
+//@   ensures (err != nil) == exhdr_raw_err_deneb(v)
+//@   ensures err == nil ==> r != nil && r == exhdr_raw_deneb(v)
 
 // BEGIN C18 generated (tools/gen_c18.py in /verif)
 // cancelled: a context cancelled before the call makes it fail; surfaced: a cancellation observed by a poll
@@ -93,7 +97,7 @@ package deneb
 //@   ensures asked_once: n_eng_notify <= old(n_eng_notify) + 1
 
 //@ func ProcessExecutionPayload(ctx, spec, state, body, engine) err
-//@   property C18
+//@   property C18 C03
 //@   panics off
 //@   requires ctx != nil
 //@   opt weakcalls
@@ -116,6 +120,9 @@ package deneb
 //@   loop 1
 //@     invariant len(versionedHashes) == rangeindex + 1 && n_eng_notify == old(n_eng_notify) && n_set_exec_header == old(n_set_exec_header)
 //@     invariant forall i :: {versionedHashes[i]} 0 <= i && i <= rangeindex ==> versionedHashes[i] == kzg_vhash(body.BlobKZGCommitments[i])
+//@   ensures c03_randao: spec != nil && spec.SLOTS_PER_EPOCH != 0 && err == nil ==> !st_slot_err(state) && !st_mixes_err(state) && old(body.ExecutionPayload.PrevRandao) == mix_at(st_mixes(state), st_slot(state) / spec.SLOTS_PER_EPOCH)
+//@   ensures c03_timestamp: spec != nil && spec.SECONDS_PER_SLOT != 0 && err == nil ==> !st_gentime_err(state) && old(body.ExecutionPayload.Timestamp) == st_slot(state) * spec.SECONDS_PER_SLOT + st_gentime(state)
+//@   ensures c03_parent: err == nil ==> !st_exhdr_err_deneb(state) && !exhdr_raw_err_deneb(st_exhdr_deneb(state)) && old(body.ExecutionPayload.ParentHash) == old(exhdr_raw_deneb(st_exhdr_deneb(state)).BlockHash)
 
 //@ func ProcessEpochRegistryUpdates(ctx, spec, epc, flats, state) err
 //@   property C18
